@@ -33,6 +33,8 @@ package stream
 //@   lemma mono(a int, b int) induction b from a: cnt(a) <= cnt(b)
 //@   loop 1 invariant 0 <= _i && _i <= len(tu) && n == cnt(_i)
 //@   loop 2 invariant 0 <= _i && _i <= len(tu) && i == cnt(_i) && n == cnt(len(tu)) && len(filteredTU) == n
+//@   loop 2 invariant forall(k, 0, len(tu), tu[k] == el(k))
+//@   loop 2 invariant _i < len(tu) ==> cnt(_i+1) <= cnt(len(tu))
 //@   loop 2 invariant forall(k, 0, _i, keep(k) ==> filteredTU[cnt(k)] == el(k))
 //@   ensures [empty] cnt(len(tu())) == 0 ==> result == nil
 //@   ensures [type] cnt(len(tu())) > 0 ==> dyntype(result) == typetag(unit.PayloadAV1) && len(result.(unit.PayloadAV1)) == cnt(len(tu()))
@@ -55,6 +57,8 @@ package stream
 //@   lemma mono(a int, b int) induction b from a: cnt(a) <= cnt(b)
 //@   loop 1 invariant 0 <= _i && _i <= len(au) && isKeyFrame == key(_i) && n == pre(_i) + cnt(_i)
 //@   loop 2 invariant 0 <= _i && _i <= len(au) && isKeyFrame == key(len(au)) && i == pre(len(au)) + cnt(_i) && n == pre(len(au)) + cnt(len(au)) && len(filteredAU) == n
+//@   loop 2 invariant forall(k, 0, len(au), au[k] == el(k))
+//@   loop 2 invariant _i < len(au) ==> cnt(_i+1) <= cnt(len(au))
 //@   loop 2 invariant pre(len(au)) == 2 ==> filteredAU[0] == old(forma.(*format.H264).SPS) && filteredAU[1] == old(forma.(*format.H264).PPS)
 //@   loop 2 invariant forall(k, 0, _i, keep(k) ==> filteredAU[pre(len(au)) + cnt(k)] == el(k))
 //@   ensures [type] result != nil && dyntype(result) == typetag(unit.PayloadH264)
@@ -79,6 +83,8 @@ package stream
 //@   lemma mono(a int, b int) induction b from a: cnt(a) <= cnt(b)
 //@   loop 1 invariant 0 <= _i && _i <= len(au) && isKeyFrame == key(_i) && n == pre(_i) + cnt(_i)
 //@   loop 2 invariant 0 <= _i && _i <= len(au) && isKeyFrame == key(len(au)) && i == pre(len(au)) + cnt(_i) && n == pre(len(au)) + cnt(len(au)) && len(filteredAU) == n
+//@   loop 2 invariant forall(k, 0, len(au), au[k] == el(k))
+//@   loop 2 invariant _i < len(au) ==> cnt(_i+1) <= cnt(len(au))
 //@   loop 2 invariant pre(len(au)) == 3 ==> filteredAU[0] == old(forma.(*format.H265).VPS) && filteredAU[1] == old(forma.(*format.H265).SPS) && filteredAU[2] == old(forma.(*format.H265).PPS)
 //@   loop 2 invariant forall(k, 0, _i, keep(k) ==> filteredAU[pre(len(au)) + cnt(k)] == el(k))
 //@   ensures [type] result != nil && dyntype(result) == typetag(unit.PayloadH265)
